@@ -13,6 +13,13 @@ Components
             staging buffer, and the same batch with the compute phases executed up front in real threads that are
             forced to FINISH in a generated order.  Compared: model (compiled Lean `runDriver`) vs batch run
             exactly (results, state, every file's bytes, computed tasks, raise/no raise); real-vs-real monitors.
+  gate      the exact decision table of `_agents_parallel_enabled` over (perf.enabled, perf.parallel.enabled,
+            perf.parallel.agents, max_workers): which path the real driver takes (enable_staging called, dry-run vs
+            full turns) vs the model's `parallelOn`; monitors gate_closed_takes_sequential_fallback / gate_open_takes_batch_path
+  history   2-3 batches in one process on ONE ctx / live state / staging context with no clean-up in between, earlier
+            batches aborting in the compute phase (turn raises), in the commit phase (apply_changes raises after logs
+            were staged) or on a record above the byte limit; every batch vs the same batch from the same pre-state on a
+            fresh context and vs the real sequential loop
   limitsweep  one contract batch under EVERY staging limit 1, 1+stride, … past the sum of all estimates, each against
             the real sequential loop (every served limit gives the same bytes; every limit >= the largest record
             estimate is served)
@@ -38,7 +45,8 @@ RULE = ("seeded structured generators: select — 1..6 agent ids (pool with non-
         "batch — 1..6 tasks, per-task scripts with 0..4 log records over identity/non-identity streams, payload pads 1 B..100 kB, "
         "deltas on own (contract) or foreign (off-contract) graphs, staging limits 1, around each record estimate, 95..415, "
         "multiples of the largest estimate, half the total, unlimited; CI normalisation on/off; worker limits 0..8 and gate flags; "
-        "a generated finishing order for the compute phases.  A case is non-trivial when it hits a non-default branch tag "
+        "a generated finishing order for the compute phases; turn ids of every shape (int, negative, '7', '007', non-numeric, empty string); "
+        "gate — all 72 rows of the gate decision table every run; history — 2..3 batches per process history with injected aborts (apply raises, turn raises, tiny limit).  A case is non-trivial when it hits a non-default branch tag "
         "(backpressure_flush, overlap_skipped, worker_cap, retry_raises, off_contract, multi_record_file, big_payload, ...); distinct by canonical JSON")
 ASSUMPTIONS = [
     "the turn-compute function and apply_changes are parameters of the theorems; the contract hypotheses (a turn reads and writes only graphs of its own agent, "
@@ -46,7 +54,9 @@ ASSUMPTIONS = [
     "of the correspondence is proved to satisfy them (C10_world_contract)",
     "agent ids within one batch are distinct (the driver tests `aid not in picked`, so a task list naming one agent twice computes it twice: "
     "machine-checked witness C10_batch_duplicate_agent_witness; such task lists are only compared against the model, not against the sequential loop)",
-    "turn ids are integers (the `(1, str(tid), …)` branch of _sort_turn_buffers is not modelled); perf.parallel flags are booleans and max_workers an integer",
+    "turn ids: any shape (int, negative, numeric / zero-padded / non-numeric string) is carried through the model as an opaque payload token and must reach "
+    "every line untouched (type-strict: file bytes are compared); buffers that return turn ids DIFFERENT from the batch ctx's (off-contract stream) use integer ids only "
+    "(the `(1, str(tid), …)` branch of _sort_turn_buffers is not modelled); perf.* flags are booleans (perf.enabled may be absent) and max_workers an integer",
     "payload values are opaque tokens carrying len(str(v)) / truthiness (C16 record model); log file names have no directory part",
     "compute phases are pure functions of the read-only snapshot (the real driver runs them in a plain for-loop; the finishing-order stream runs the real "
     "_run_turn_compute in threads forced to finish in a generated order and hands the buffers to the driver by task)",
@@ -86,6 +96,7 @@ GRAPHS = ["G1", "G2", "G3", "G4", "G5"]
 AGENT_POOLS = [["A", "B", "C", "D", "E", "F"], ["C", "A", "B", "F", "D", "E"], ["agent10", "agent2", "agent1", "b", "a", "Z"],
                ["z9", "z10", "é", "a b", "", "A"]]
 STREAMS = ["t1.jsonl", "t2.jsonl", "t4.jsonl", "turn.jsonl", "health.jsonl", "t3_plan.jsonl", "foo.jsonl", "t1.jsonl", "t1.jsonl", "t4.jsonl"]
+TURN_IDS = [0, 1, 7, 100, -3, 7, "7", "007", "1", "-5", "t-1", "turn9", ""]
 PAD_SIZES = [1, 1, 5, 20, 60, 100, 150, 300, 1000, 4000, 8192, 100_000]
 
 _SCRATCH: Optional[Path] = None
@@ -358,13 +369,41 @@ def script_of(case: dict, aid: str, text: str) -> dict:
     return {"agent": aid, "text": text, "turn": case["turn"], "slice": case["slice"], "reads": [], "logs": [], "deltas": [], "line": ""}
 
 
+class RigAbort(Exception):
+    """injected failure of a scripted turn / apply function."""
+
+
+def turn_rank(t: Any) -> int:
+    """`_sort_turn_buffers`' integer key of a turn id (`int(tid)`; non-numeric ids only occur batch-constant)."""
+    try:
+        return int(t)
+    except Exception:
+        return 0
+
+
 class World:
-    """installs the scripted turn function / apply function on the real orchestrator, restores on exit."""
+    """installs the scripted turn function / apply function on the real orchestrator, restores on exit.
+    `case`, `limit` and the log directory may be switched between batches (`set_batch`) without leaving the
+    context: histories of several batches run on ONE orchestrator / ctx / contextvars context."""
 
     def __init__(self, case: dict, limit: int, logdir: Path):
         self.case, self.limit, self.logdir = case, limit, logdir
         self.computed: List[Tuple[str, str]] = []
         self.lock = threading.Lock()
+        self.staging_calls = 0
+        self.dry_calls = 0
+        self.full_calls = 0
+
+    def set_batch(self, case: dict, limit: int, logdir: Path) -> None:
+        self.case, self.limit, self.logdir = case, limit, logdir
+        os.environ["CLEMATIS_LOG_DIR"] = str(logdir)
+        os.environ["CLEMATIS_LOGS_DIR"] = str(logdir)
+        self.computed = []
+        self.staging_calls = self.dry_calls = self.full_calls = 0
+
+    def path_taken(self) -> dict:
+        return {"path": "batch" if self.staging_calls else "sequential", "staging_calls": self.staging_calls,
+                "dry_calls": self.dry_calls, "full_calls": self.full_calls}
 
     def __enter__(self):
         import clematis.engine.orchestrator as orch
@@ -372,6 +411,10 @@ class World:
         from clematis.engine.util import io_logging as IOL
         from clematis.io.log import append_jsonl
         case = self.case
+        try:
+            IOL.disable_staging()   # every World starts from a clean staging context
+        except Exception:
+            pass
         self.orch, self.ocore, self.IOL = orch, ocore, IOL
         self.saved = {k: (hasattr(orch, k), getattr(orch, k, None)) for k in ("apply_changes", "enable_staging", "_run_turn_compute")}
         self.saved_run_turn = ocore.Orchestrator.run_turn
@@ -381,6 +424,8 @@ class World:
 
         def apply_changes(ctx, state, t4):
             ds = list(getattr(t4, "approved_deltas", []) or [])
+            if any(g == "__raise__" for g, _ in ds):
+                raise RigAbort("apply")
             for g, inc in ds:
                 state.graphs[g] = state.graphs.get(g, 0) + inc
             state.version += 1
@@ -389,8 +434,14 @@ class World:
 
         def run_turn(self_, ctx, state, text):
             aid = ctx.agent_id
+            case = world.case
             sc = script_of(case, aid, text)
             dry = bool(getattr(ctx, "_dry_run_until_t4", False))
+            with world.lock:
+                if dry:
+                    world.dry_calls += 1
+                else:
+                    world.full_calls += 1
             graphs = state.graphs
             val = sum(graphs.get(g, 0) for g in sc["reads"])
             if sc["turn"] != case["turn"] or sc["slice"] != case["slice"]:
@@ -399,26 +450,32 @@ class World:
                 ctx.slice_idx = sc["slice"]
             for path, fields in sc["logs"]:
                 rec = dict(expand_fields(fields))
+                rec["turn"] = ctx.turn_id
                 rec["val"] = val
                 append_jsonl(path, rec)
             line = f"{sc['line']}:{val}"
             with world.lock:
                 world.computed.append((aid, text))
+            if sc.get("raise_compute"):
+                raise RigAbort("compute")
+            deltas = [tuple(d) for d in sc["deltas"]] + ([("__raise__", 0)] if sc.get("raise_apply") else [])
             if dry:
-                ctx._dryrun_t4 = SNS(approved_deltas=[tuple(d) for d in sc["deltas"]])
+                ctx._dryrun_t4 = SNS(approved_deltas=deltas)
                 ctx._dryrun_utter = line
                 ctx._dryrun_t1 = {"graphs_touched": list(sc["reads"])}
                 ctx._dryrun_t2 = {}
                 return SNS(line=line, events=[])
-            res = apply_changes(ctx, state, SNS(approved_deltas=[tuple(d) for d in sc["deltas"]]))
+            res = apply_changes(ctx, state, SNS(approved_deltas=deltas))
             append_jsonl("apply.jsonl", {"turn": ctx.turn_id, "agent": aid, "applied": res.applied, "clamps": res.clamps,
                                          "version_etag": res.version_etag, "snapshot": res.snapshot_path,
                                          "cache_invalidations": int(res.metrics["cache_invalidations"]), "ms": 0.0})
             return SNS(line=line, events=[])
 
         orch.apply_changes = apply_changes
-        lim = self.limit
-        orch.enable_staging = lambda: IOL.enable_staging(lim)
+        def enable_staging_hook():
+            world.staging_calls += 1
+            return IOL.enable_staging(world.limit)
+        orch.enable_staging = enable_staging_hook
         ocore.Orchestrator.run_turn = run_turn
         return self
 
@@ -447,6 +504,11 @@ def make_state(case: dict):
 
 def make_ctx(case: dict, enabled: bool, agents_flag: bool):
     cfg = {"perf": {"enabled": True, "parallel": {"enabled": enabled, "agents": agents_flag, "max_workers": case["mw"]}}}
+    pe = case.get("perf_enabled", True)   # perf.enabled is NOT part of the agent gate (only perf.parallel.* is)
+    if pe is None:
+        del cfg["perf"]["enabled"]
+    else:
+        cfg["perf"]["enabled"] = pe
     return SNS(turn_id=case["turn"], slice_idx=case["slice"], cfg=cfg, now_ms=None, agent_id="batch")
 
 
@@ -518,7 +580,10 @@ def run_real(case: dict, mode: str) -> dict:
                 res = par._run_agents_parallel_batch(ctx, state, list(tasks))
             except RuntimeError as e:
                 err = "backpressure" if str(e) == "LOG_STAGING_BACKPRESSURE" else f"RuntimeError:{e}"
+            except RigAbort as e:
+                err = f"abort:{e}"
             out = observe(state, res, d, err)
+            out.update(w.path_taken())
             par_on = bool(ctx.cfg["perf"]["parallel"]["enabled"] and ctx.cfg["perf"]["parallel"]["agents"] and case["mw"] > 1)
             out["computed"] = [list(t) for t in (asked if (kind == "perm" and par_on) else w.computed)]
             return out
@@ -530,7 +595,7 @@ def run_real(case: dict, mode: str) -> dict:
 # batch component
 # ---------------------------------------------------------------------------
 def est_of_fields(fields: List[list], val_len: int = 2) -> int:
-    return sum(len(str(k)) + len(str(v)) for k, v in expand_fields(fields)) + 3 + val_len + 2
+    return sum(len(str(k)) + len(str(v)) for k, v in expand_fields(fields)) + 3 + val_len + 7 + 2
 
 
 def contract_ok(case: dict, computed: List[list]) -> bool:
@@ -585,7 +650,9 @@ class BatchComp(Component):
         disjoint = style not in ("overlap",)
         spec = gen_agents_spec(rng, ids, disjoint=disjoint and n <= len(GRAPHS), simple=rng.random() < 0.6)
         gs = resolved(spec)
-        turn, sl = rng.choice([0, 1, 7, 100, -3]), rng.choice([0, 0, 0, 2])
+        turn, sl = rng.choice(TURN_IDS), rng.choice([0, 0, 0, 2])
+        if style == "off_keys":
+            turn = rng.choice([0, 1, 7, 100, -3])   # buffers with their OWN turn ids: integer ids only
         world = {"graphs": [[g, rng.randrange(0, 50)] for g in GRAPHS if rng.random() < 0.85], "version": rng.choice([0, 0, 3, 41])}
         big = rng.random() < 0.12
         rec_id = 0
@@ -643,10 +710,11 @@ class BatchComp(Component):
             limit = max(limit, mx + rng.choice([0, 1, 50, 5000]))
         limit = max(1, int(limit))
         mw = rng.choice([2, 2, 3, 4, 6, 6, 8, 8, 8]) if style != "gate" else rng.choice([0, 1, 2, 8])
-        enabled, agents_flag = (True, True) if style != "gate" else (rng.random() < 0.6, rng.random() < 0.6)
+        enabled, agents_flag = (True, True) if style != "gate" else (rng.random() < 0.5, rng.random() < 0.7)
         perm = list(range(n))
         rng.shuffle(perm)
         return {"style": style, "ci_env": rng.choice(["", "", "true", "true", "TRUE"]), "limit": limit, "enabled": enabled, "agents_flag": agents_flag,
+                "perf_enabled": rng.choice([True, True, False, None]),
                 "mw": mw, "turn": turn, "slice": sl, "world": world, "agents": spec, "tasks": tasks, "scripts": scripts, "perm": perm}
 
     # -- implementation -------------------------------------------------------
@@ -665,16 +733,18 @@ class BatchComp(Component):
         scripts = []
         for sc in case["scripts"]:
             logs = [[p, [[k, enc_value(v, table)] for k, v in expand_fields(f)]] for p, f in sc["logs"]]
-            scripts.append({"agent": sc["agent"], "text": sc["text"], "agentV": enc_value(sc["agent"], table), "turn": sc["turn"],
+            scripts.append({"agent": sc["agent"], "text": sc["text"], "agentV": enc_value(sc["agent"], table),
+                            "turnV": enc_value(sc["turn"], table), "turn": turn_rank(sc["turn"]),
                             "slice": sc["slice"], "reads": sc["reads"], "logs": logs, "deltas": sc["deltas"], "line": sc["line"]})
         # tasks without a script: the model's empty script needs the agent token too
         have = {(s["agent"], s["text"]) for s in case["scripts"]}
         for aid, text in case["tasks"]:
             if (aid, text) not in have:
-                scripts.append({"agent": aid, "text": text, "agentV": enc_value(aid, table), "turn": case["turn"], "slice": case["slice"],
+                scripts.append({"agent": aid, "text": text, "agentV": enc_value(aid, table), "turnV": enc_value(case["turn"], table),
+                                "turn": turn_rank(case["turn"]), "slice": case["slice"],
                                 "reads": [], "logs": [], "deltas": [], "line": ""})
         rq = {"c": "c10.batch", "ci_env": case["ci_env"], "limit": case["limit"], "agents": ag, "gba": gb, "enabled": case["enabled"],
-              "agents_flag": case["agents_flag"], "mw": case["mw"], "turn": case["turn"], "slice": case["slice"],
+              "agents_flag": case["agents_flag"], "mw": case["mw"], "turn": turn_rank(case["turn"]), "slice": case["slice"],
               "world": case["world"], "tasks": case["tasks"], "scripts": scripts}
         return rq, table
 
@@ -717,6 +787,9 @@ class BatchComp(Component):
         parr = impl_out["par"]
         if parr["err"] not in (None, "backpressure"):
             return f"implementation raised {parr['err']}"
+        if (parr["path"] == "batch") != model_out["parallel"]:
+            return (f"gate: the driver took the {parr['path']} path, the model says parallel={model_out['parallel']} for perf.enabled={case.get('perf_enabled', True)} "
+                    f"parallel.enabled={case['enabled']} agents={case['agents_flag']} max_workers={case['mw']}")
         if parr["computed"] != model_out["computed"]:
             return f"computed tasks: impl={parr['computed']} model={model_out['computed']}"
         d = self._diff("batch", parr, self._model_out(model_out["out"], table))
@@ -784,6 +857,12 @@ class BatchComp(Component):
             res.append(("finishes_when_every_record_fits", parr["ok"], detail))
         else:
             res.append((KEY_LIMIT, parr["ok"], detail))
+        gate = (f"perf.enabled={case.get('perf_enabled', True)} perf.parallel.enabled={case['enabled']} agents={case['agents_flag']} max_workers={case['mw']}: "
+                f"path={parr['path']} enable_staging calls={parr['staging_calls']} dry-run turns={parr['dry_calls']} full turns={parr['full_calls']}")
+        if not par_on:
+            res.append(("gate_closed_takes_sequential_fallback", parr["path"] == "sequential" and parr["dry_calls"] == 0, gate))
+        else:
+            res.append(("gate_open_takes_batch_path", parr["path"] == "batch" and parr["staging_calls"] == 1 and parr["full_calls"] == 0, gate))
         if not par_on:
             res.append(("gate_off_runs_every_task_sequentially", parr["computed"] == [list(t) for t in case["tasks"]] and len(parr["lines"]) == len(case["tasks"]),
                         f"parallel gate is off (enabled={case['enabled']} agents={case['agents_flag']} max_workers={case['mw']}) but executed {parr['computed']} of {case['tasks']}"))
@@ -835,6 +914,12 @@ class BatchComp(Component):
             t.add("big_payload")
         if case["ci_env"].lower() == "true":
             t.add("ci")
+        if isinstance(case["turn"], str):
+            t.add("turn_id:numeric_string" if turn_rank(case["turn"]) or case["turn"].strip("0") == "" and case["turn"] else "turn_id:non_numeric_string")
+        elif case["turn"] < 0:
+            t.add("turn_id:negative")
+        if case.get("perf_enabled", True) is not True:
+            t.add("perf_enabled_off_or_absent")
         if case["perm"] != sorted(case["perm"]):
             t.add("finish_order_permuted")
         if [a for a, _ in case["tasks"]] != sorted(a for a, _ in case["tasks"]):
@@ -930,6 +1015,190 @@ class LimitSweepComp(Component):
 
     def shrink(self, case):
         return BatchComp().shrink(case)
+
+
+# ---------------------------------------------------------------------------
+# gate: exact decision table of `_agents_parallel_enabled`
+# ---------------------------------------------------------------------------
+GATE_TABLE = [(pe, en, ag, mw) for pe in (True, False, None) for en in (True, False) for ag in (True, False) for mw in (-1, 0, 1, 2, 3, 8)]
+
+
+class GateComp(BatchComp):
+    """Every row of (perf.enabled, perf.parallel.enabled, perf.parallel.agents, max_workers) on one fixed two-agent
+    contract batch: the path the real driver takes (enable_staging called / dry-run turns vs full turns) against the
+    model's `parallelOn`, and the monitors `gate_closed_takes_sequential_fallback` / `gate_open_takes_batch_path`."""
+    name = "gate"
+    budget = {"quick": len(GATE_TABLE), "thorough": len(GATE_TABLE), "search": len(GATE_TABLE)}
+
+    def gen(self, rng, i):
+        pe, en, ag, mw = GATE_TABLE[i % len(GATE_TABLE)]
+        turn = TURN_IDS[i % len(TURN_IDS)]
+        mk = lambda a, t, g: {"agent": a, "text": t, "turn": turn, "slice": 0, "reads": [g],
+                              "logs": [["t1.jsonl", [["uid", a + ".0"]]], ["t4.jsonl", [["uid", a + ".1"], ["pad", 30]]]], "deltas": [[g, 1]], "line": "L" + a}
+        return {"style": "gate_table", "ci_env": "", "limit": rng.choice([120, 200, 32 * 1024 * 1024]), "enabled": en, "agents_flag": ag, "perf_enabled": pe,
+                "mw": mw, "turn": turn, "slice": 0, "world": {"graphs": [["G1", 5], ["G2", 7]], "version": 0},
+                "agents": [["B", "gba", ["G1"], ["G1"]], ["A", "agents", ["G2"], ["G2"]]], "tasks": [["B", "t0"], ["A", "t1"]],
+                "scripts": [mk("B", "t0", "G1"), mk("A", "t1", "G2")], "perm": [1, 0]}
+
+    def tags(self, case, impl_out):
+        return [f"row:pe={case['perf_enabled']},en={case['enabled']},ag={case['agents_flag']},mw={case['mw']}", "path:" + impl_out["par"]["path"]]
+
+
+# ---------------------------------------------------------------------------
+# histories: 2-3 batches on ONE orchestrator / ctx / staging context, with aborted batches in between
+# ---------------------------------------------------------------------------
+ABORTS = ["none", "apply_raise", "apply_raise", "compute_raise", "limit_tiny", "limit_below_apply", "limit_below_apply"]
+
+
+class HistoryComp(Component):
+    """Batches run one after another in one process on the same ctx and live state, WITHOUT any clean-up between them
+    (a batch that aborts leaves whatever it leaves).  Each batch writes to its own log directory.  Every batch of the
+    history is compared with the same batch started from the same pre-state on a fresh staging context, and (when it
+    finishes and follows the contract) with the real sequential loop from that pre-state."""
+    name = "history"
+    budget = {"quick": 120, "thorough": 2500, "search": 600}
+
+    def gen(self, rng, i):
+        b = BatchComp()
+        for _ in range(50):
+            base = b.gen(rng, i)
+            if base["style"] in ("contract", "overlap") and len(base["tasks"]) >= 2:
+                break
+        base["enabled"], base["agents_flag"], base["mw"] = True, True, rng.choice([4, 8])
+        nb = rng.choice([2, 2, 3])
+        batches = []
+        for k in range(nb):
+            scs = json.loads(json.dumps(base["scripts"]))
+            for sc in scs:
+                for _, fields in sc["logs"]:
+                    for f in fields:
+                        if f[0] == "uid":
+                            f[1] = f"b{k}.{f[1]}"
+                        if f[0] == "pad":
+                            f[1] = min(int(f[1]), 300)
+            tasks = list(base["tasks"])
+            if k and rng.random() < 0.4 and len(tasks) > 1:
+                tasks = tasks[1:] + tasks[:1]
+            abort = rng.choice(ABORTS) if k < nb - 1 else rng.choice(["none", "none", "none", "limit_below_apply"])
+            ests = [est_of_fields(f) for sc in scs for _, f in sc["logs"]] or [12]
+            big = max(ests + [95]) + rng.choice([0, 10, 60, 200, 10 ** 6])
+            limit = big
+            if abort in ("apply_raise", "compute_raise") and scs:
+                j = rng.randrange(len(tasks))
+                for sc in scs:
+                    if [sc["agent"], sc["text"]] == tasks[j]:
+                        sc["raise_apply" if abort == "apply_raise" else "raise_compute"] = True
+            elif abort == "limit_tiny":
+                limit = rng.choice([1, 5, 20])
+            elif abort == "limit_below_apply":
+                limit = rng.choice([40, 60, 70])
+            batches.append({"tasks": tasks, "scripts": scs, "limit": limit, "abort": abort})
+        base["batches"] = batches
+        base["style"] = "history"
+        return base
+
+    @staticmethod
+    def _batch_case(case: dict, k: int, world: Optional[dict] = None) -> dict:
+        b = case["batches"][k]
+        c = {kk: v for kk, v in case.items() if kk != "batches"}
+        c.update(tasks=b["tasks"], scripts=b["scripts"], limit=b["limit"], perm=list(range(len(b["tasks"]))))
+        if world is not None:
+            c["world"] = world
+        return c
+
+    def impl(self, case):
+        from clematis.engine.orchestrator import parallel as par
+        root = scratch_dir("hist")
+        hist: List[dict] = []
+        pres: List[dict] = []
+        try:
+            c0 = self._batch_case(case, 0)
+            with World(c0, c0["limit"], root / "b0") as w:
+                state = make_state(c0)
+                ctx = make_ctx(c0, True, True)     # ONE ctx for the whole history
+                for k in range(len(case["batches"])):
+                    ck = self._batch_case(case, k)
+                    d = root / f"b{k}"
+                    d.mkdir(parents=True, exist_ok=True)
+                    w.set_batch(ck, ck["limit"], d)
+                    pres.append({"graphs": sorted([g, v] for g, v in state.graphs.items()), "version": state.version})
+                    res, err = None, None
+                    try:
+                        res = par._run_agents_parallel_batch(ctx, state, [tuple(t) for t in ck["tasks"]])
+                    except RuntimeError as e:
+                        err = "backpressure" if str(e) == "LOG_STAGING_BACKPRESSURE" else f"RuntimeError:{e}"
+                    except RigAbort as e:
+                        err = f"abort:{e}"
+                    o = observe(state, res, d, err)
+                    o["computed"] = [list(t) for t in w.computed]
+                    hist.append(o)
+        finally:
+            shutil.rmtree(root, ignore_errors=True)
+        fresh, seqs = [], []
+        for k, pre in enumerate(pres):
+            ck = self._batch_case(case, k, world=pre)
+            f = run_real(ck, "par")
+            fresh.append(f)
+            seqs.append(run_real(ck, {"kind": "seq", "tasks": f["computed"]}) if f["ok"] else None)
+        return {"hist": hist, "fresh": fresh, "seq": seqs, "pre": pres}
+
+    def request(self, case):
+        return {"c": "const", "v": 0}
+
+    def compare(self, case, impl_out, model_out):
+        return None  # each single batch is tied to the model by the `batch` component; here: real vs real
+
+    @staticmethod
+    def _same(a: dict, b: dict) -> Optional[str]:
+        if a["err"] != b["err"]:
+            return f"outcome: history={a['err'] or 'finished'} fresh={b['err'] or 'finished'}"
+        if a["computed"] != b["computed"]:
+            return f"computed: history={a['computed']} fresh={b['computed']}"
+        return BatchComp._diff("history vs fresh ctx", a, b)
+
+    def monitors(self, case, impl_out):
+        res = []
+        for k, (h, f, q) in enumerate(zip(impl_out["hist"], impl_out["fresh"], impl_out["seq"])):
+            prev = [x["err"] or "finished" for x in impl_out["hist"][:k]]
+            d = self._same(h, f)
+            res.append(("history_batch_equals_same_batch_on_fresh_ctx", d is None, f"batch #{k + 1} after {prev}: {d}"))
+            ck = self._batch_case(case, k)
+            distinct = len({a for a, _ in ck["tasks"]}) == len(ck["tasks"])
+            if h["ok"] and q is not None and distinct and contract_ok(ck, h["computed"]):
+                d2 = BatchComp._diff("history batch vs sequential loop", h, q)
+                res.append(("history_batch_equals_sequential_loop", d2 is None, f"batch #{k + 1} after {prev}: {d2}"))
+        return res
+
+    def monitor_requests(self, case, impl_out):
+        reqs = []
+        for k, (h, q) in enumerate(zip(impl_out["hist"], impl_out["seq"])):
+            ck = self._batch_case(case, k)
+            if k and h["ok"] and q is not None and q["ok"] and contract_ok(ck, h["computed"]) and len({a for a, _ in ck["tasks"]}) == len(ck["tasks"]):
+                (a, b), paths = BatchComp._tokenise([h, q])
+                reqs.append((f"later_batch_equals_sequential_loop", {"c": "c10.same", "a": a, "b": b, "paths": paths}))
+        return reqs
+
+    def tags(self, case, impl_out):
+        t = {f"batches:{len(impl_out['hist'])}"}
+        for k, h in enumerate(impl_out["hist"][:-1]):
+            if h["err"]:
+                t.add("earlier_batch_aborted:" + h["err"])
+                if h["err"] in ("abort:apply", "backpressure") and any(h2["ok"] for h2 in impl_out["hist"][k + 1:]):
+                    t.add("batch_finishes_after_commit_phase_abort")
+        if all(h["ok"] for h in impl_out["hist"]):
+            t.add("all_finish")
+        return sorted(t)
+
+    def shrink(self, case):
+        for k in range(len(case["batches"]) - 1, 0, -1):
+            if len(case["batches"]) > 2:
+                yield dict(case, batches=case["batches"][:k] + case["batches"][k + 1:])
+        for k, b in enumerate(case["batches"]):
+            for i in range(len(b["tasks"])):
+                if len(b["tasks"]) > 1:
+                    bs = list(case["batches"])
+                    bs[k] = dict(b, tasks=b["tasks"][:i] + b["tasks"][i + 1:])
+                    yield dict(case, batches=bs)
 
 
 # ---------------------------------------------------------------------------
@@ -1035,7 +1304,7 @@ class RealPipeComp(Component):
         return [f"snapshot:{case['snapshot']}", "raised" if impl_out["par"]["raised"] else "completed"]
 
 
-COMPONENTS = [SelectComp(), BatchComp(), LimitSweepComp(), RealPipeComp()]
+COMPONENTS = [SelectComp(), GateComp(), BatchComp(), HistoryComp(), LimitSweepComp(), RealPipeComp()]
 
 
 def run(ctx: Ctx) -> None:
